@@ -206,9 +206,9 @@ Section Sim2.
     match first, cls with
     | Some _, CFor t e ps :: r =>
         ok_target2 lo ls U used t && forallb (fun x => str_in x V) (target_names t)
-        && ok_cls lo ls V used curly body bodyv (rm (target_names t) U) r
+        && ok_cls lo ls V used body bodyv (rm (target_names t) U) r
     | Some _, _ => false
-    | None, _ => ok_cls lo ls V used curly body bodyv U cls
+    | None, _ => ok_cls lo ls V used body bodyv U cls
     end.
 
   Definition Cm2 (n : nat) : Prop :=
@@ -227,7 +227,7 @@ Section Sim2.
   Definition Cl2 (n : nat) : Prop :=
     forall stk lo ls cs U V ρ L t ps vs lock r acc curly body bodyv cp s fid C fv K pc σ I brk cont,
       ok_target2 lo ls U (map snd cs) t = true -> forallb (fun x => str_in x V) (target_names t) = true ->
-      ok_cls lo ls V (map snd cs) curly body bodyv (rm (target_names t) U) r = true ->
+      ok_cls lo ls V (map snd cs) body bodyv (rm (target_names t) U) r = true ->
       (curly = false -> exists a, acc = VRef a) ->
       R lo ls cs U ρ L -> stk_ok stk fid K ->
       pcode_at C pc (loop_tail (gen_ct p ls cs t ps) (gen_cls p ls cs curly body bodyv cp r) ps) brk cont ->
